@@ -27,7 +27,7 @@ ASSUMPTIONS = [
     "vlib.chunktools edits (dropping SLnK chunks, appending a -1 terminator) produce files the format documentation allows",
 ]
 REQUIRED_LABELS = {
-    "quick": ["save_load_midway", "freed_slot_middle_saved", "cycle_saved", "variant_subset", "variant_all_removed", "slnk_written", "modules_at_positions_above_256"],
+    "quick": ["save_load_midway", "freed_slot_middle_saved", "cycle_saved", "variant_subset", "variant_all_removed", "slnk_written", "modules_at_positions_above_256", "written_as_old_version"],
     "thorough": ["save_load_midway", "freed_slot_middle_saved", "cycle_saved", "fan_in3_saved", "variant_subset", "variant_all_removed", "slnk_written"],
 }
 
@@ -152,6 +152,9 @@ def check_variants(data, E, variant, labels):
 @st.composite
 def c08_case(draw, max_modules, max_ops, big=False):
     case = draw(c07.op_list(max_modules, max_ops, with_save_load=True, big=big))
+    ver = draw(st.sampled_from([None, None, [1, 9, 4, 2], [1, 7, 0, 0], [2, 0, 0, 0]]))
+    if ver:
+        case["sunvox_version"] = ver  # written as a file of that SunVox version
     case["variant"] = {
         "drop": draw(st.sampled_from(["none", "all", "subset", "subset"])),
         "mask": draw(st.integers(0, 2**30 - 1)),
@@ -221,6 +224,8 @@ def run_shard(ctx, desc):
         ctx.label(*labels)
         if case.get("base"):
             ctx.label("modules_at_positions_above_256")
+        if case.get("sunvox_version") and tuple(case["sunvox_version"]) < (1, 9, 5, 0):
+            ctx.label("written_as_old_version")
         if labels & {"freed_slot_middle_saved", "cycle_saved", "fan_in3_saved", "variant_subset"}:
             ctx.mark_nontrivial(case)
         ctx.sample(case)
